@@ -18,7 +18,7 @@ RULE = ('cases = one real stack against a scripted conforming peer written from 
         'non-trivial = every exchange; distinct = (layer, role, size class, window class, peer policy)')
 ASSUMPTIONS = ['reference leniencies: FD abort bytes, Multi-PG padding bytes and priorities are not judged; PS of a PDU1 PGN in a BAM announcement is normalised',
                'the reference was validated against the literal frame vectors of the pinned suite (tools/selftest.py)']
-MIN_OBS = {'exchanges': {'quick': 2800, 'thorough': 28000}, 'stack_originator': {'quick': 1200, 'thorough': 12000}, 'stack_responder': {'quick': 900, 'thorough': 9000},
+MIN_OBS = {'exchanges': {'quick': 2800, 'thorough': 28000}, 'stack_originator': {'quick': 1000, 'thorough': 10000}, 'stack_responder': {'quick': 800, 'thorough': 8000},
            'cts_checked': {'quick': 30000, 'thorough': 300000}, 'dt_checked': {'quick': 60000, 'thorough': 600000}, 'holds_exercised': {'quick': 2000, 'thorough': 20000},
            'zero_latency': {'quick': 800, 'thorough': 8000}}
 
